@@ -1271,7 +1271,10 @@ func (d *descendantOverDescendantQuery) Select(t iterator) NodeNavigator {
 				d.posit = 1
 				return d.currentNode
 			}
-			d.moveToFirstChild()
+			if !d.moveToFirstChild() {
+				// The input node has no children, so it has no descendants to test.
+				continue
+			}
 		} else if !d.moveUpUntilNext() {
 			continue
 		}
